@@ -222,6 +222,62 @@ def main() -> int:
         elif got1 != rp["expected"]:
             spec_failures.append({"suite": "known-finding-replay", "finding": f["id"], "sql": rp["sql"], "impl": got1,
                                   "recorded_defect": rp["observed"], "spec": rp["expected"]})
+    # ---- both bundled providers, every run: the dict-backed one and SQLAlchemy on in-memory sqlite must answer alike, in
+    # particular for tables one of them could find under ANOTHER schema (same bare name in the connection's default schema,
+    # schema attached but without the table, schema not attached at all) -------------------------------------------------
+    try:
+        from sqlalchemy import Column as SAColumn, Integer, MetaData as SAMeta, Table as SATable, text as sa_text
+        from sqllineage.core.metadata.sqlalchemy import SQLAlchemyMetaDataProvider
+        have_sa = True
+    except ImportError as e:        # the repository's own test-suite needs it, so this is not expected
+        have_sa = False
+        ck.notes["sqlalchemy_provider"] = "not importable: %s" % e
+    if have_sa:
+        def sa_provider(md, attach=()):
+            pv = SQLAlchemyMetaDataProvider("sqlite:///:memory:")
+            meta = SAMeta()
+            schemas = sorted({k.split(".")[0] for k in md} | set(attach))
+            with pv.engine.connect() as conn:
+                for sch in schemas:
+                    if sch not in ("main", "temp"):
+                        conn.execute(sa_text("ATTACH DATABASE ':memory:' AS '%s'" % sch))
+            for full, cols in md.items():
+                sch, tb = full.split(".")
+                SATable(tb, meta, *[SAColumn(c, Integer) for c in cols], schema=sch)
+            meta.create_all(bind=pv.engine)
+            return pv
+        mds = [({"main.orders": ["id", "amount", "status"], "main.users": ["uid", "name"]}, ()),
+               ({"main.orders": ["id", "amount", "status"], "main.users": ["uid", "name"], "s1.items": ["iid", "amount"]}, ()),
+               ({"main.orders": ["id", "amount"], "s1.orders": ["id", "total"], "main.users": ["uid", "name"]}, ("s2",)),
+               ({"s1.orders": ["id", "total"], "s1.users": ["uid", "name"]}, ())]
+        tpl = ["insert into main.snap select * from %s.orders",
+               "insert into main.snap select amount, name from main.users join %s.orders on 1 = 1",
+               "insert into main.snap select total, name, uid from %s.users u, %s.orders o",
+               "insert into %s.orders select uid, name from main.users",
+               "create table main.o2 as select * from %s.orders o join main.users u on o.id = u.uid",
+               "insert into main.snap select id from %s.orders where id in (select uid from main.users)",
+               "create view main.v as select o.*, name from %s.orders o cross join main.users"]
+        dist["both_providers"] = 0
+        for md, attach in mds:
+            for t in tpl:
+                for X in ("main", "s1", "s2", "s9"):
+                    sql = t.replace("%s", X)
+                    outs = []
+                    for pv in (DummyMetaDataProvider(dict(md)), sa_provider(md, attach)):
+                        try:
+                            lr = LineageRunner(sql, metadata_provider=pv)
+                            lr._eval()
+                            outs.append(t2tie.summary(lr))
+                        except Exception as e:      # noqa
+                            outs.append("ERR:" + type(e).__name__)
+                    ck.count()
+                    dist["both_providers"] += 1
+                    ck.nontriv(("both-providers", sql, str(sorted(md))))
+                    if outs[0] != outs[1]:
+                        spec_failures.append({"suite": "both-providers", "sql": sql, "metadata": md, "attached_empty_schemas": list(attach),
+                                              "dict_backed_provider": outs[0], "sqlalchemy_sqlite_provider": outs[1],
+                                              "spec": "both bundled providers give the same answer; tables the provider does not know get "
+                                                      "the same answer as without metadata"})
     if not quick:
         try:
             import sys
